@@ -141,6 +141,60 @@ def check_all(ck, tier):
                     and flds["clone_fn"][1] == ("T",) and flds["drop_fn"][1] == ("T",)
                 ck.ob("A-constructor-stores-both-fns", "cglue/" + p, ok, "%s must store c_clone::<T> and c_drop::<T> next to the pointer: %s" % (p, flds), sample={"fn": p})
     ck.floor("arc constructors", n_ctor, 1)
+    # G-derived-handle-keeps-stored-fns: a handle made from a handle (conversions, transposes, opaque casts, take) carries the *source's*
+    # clone/drop functions -- those of the module that created the allocation.  Such a function must therefore never reach a fresh
+    # constructor (one that stores this module's c_clone/c_drop) nor leave the handle world through `into_arc`/`Arc::from_raw`.
+    from lib import callgraph
+    fresh = set()
+    for p, fn in fns.items():
+        for adt, flds in c06.slot_fn_in_aggregate(mir.Body(fn)).items():
+            if adt in (ARC + "CArc", ARC + "CArcSome") and ("clone_fn" in flds or "drop_fn" in flds):
+                fresh.add(p)
+    exits = {p for p, fn in fns.items() if fn["name"] == "into_arc" or any((mir.callee_path(t) or "").endswith("Arc::<T>::from_raw") or (mir.callee_path(t) or "").endswith("Arc::<T, A>::from_raw")
+                                                                           for _, t in mir.Body(fn).calls())}
+    # precise edges: the resolved callee of every call (Into::into through the From impl it forwards to), function items passed as values
+    def callees(fn):
+        out = set()
+        for body in mir.bodies(fn):
+            for _, t in body.calls():
+                c = t.get("callee") or {}
+                for q in (c.get("path"), (c.get("res") or {}).get("path"), (c.get("via_from") or {}).get("path")):
+                    if q:
+                        out.add(q)
+        cs = []
+        callgraph._walk_consts(fn["body"], cs)
+        for c in cs:
+            out.add(c["path"])
+            if c.get("res"):
+                out.add(c["res"]["path"])
+        return out
+
+    class _G:
+        def reachable(self, roots):
+            seen, st = set(), list(roots)
+            while st:
+                x = st.pop()
+                if x in seen or x not in fns:
+                    continue
+                seen.add(x)
+                st.extend(callees(fns[x]))
+                st.extend(q for q in fns if q.startswith(x + "::{closure"))
+            return seen
+    cg = _G()
+    is_handle = lambda t: "cglue::arc::CArc<" in t or "cglue::arc::CArcSome<" in t
+    n_derived = 0
+    for p, fn in sorted(fns.items()):
+        if p in fresh or p in exits or "::{closure" in p or p in (ARC + "c_clone", ARC + "c_drop"):
+            continue
+        if not (any(is_handle(t) for t in fn.get("inputs", [])) and is_handle(fn.get("output") or "")):
+            continue
+        n_derived += 1
+        reach = cg.reachable([p]) - {p}
+        bad = sorted(reach & (fresh | exits))
+        ck.ob("G-derived-handle-keeps-stored-fns", "cglue/" + p, not bad,
+              "%s (%s) makes a handle from a handle but goes through %s: the new handle gets this module's clone/drop functions instead of the ones "
+              "stored by the module that created the allocation" % (p, fn["span"], bad), sample={"fn": p})
+    ck.floor("handle-to-handle functions", n_derived, 6)
     # Clone for CArcSome: instance from the clone slot called with Some(self.instance); both fn pointers copied from self
     cl = fns.get("<cglue::arc::CArcSome<T> as std::clone::Clone>::clone")
     if ck.require(cl is not None, "Clone for CArcSome"):
